@@ -99,7 +99,8 @@ namespace nmtools::view
             }
             return result;
             #else // NMTOOLS_OPENCL_BUILD_KERNELS
-            return reduce_maximum(sliced,None,None,False);
+            // axis=None, dtype=None, initial=None, keepdims=False (a `False` in the slot of initial started every maximum from 0)
+            return reduce_maximum(sliced,None,None,None,False);
             #endif // NMTOOLS_OPENCL_BUILD_KERNELS
         };
     };
